@@ -754,6 +754,8 @@ class ExprMixin:
             return False
         if not has_sym(a) and not has_sym(b):
             return (a is b) if identity else (a == b)
+        if type(a) is object or type(b) is object:
+            return False                        # a bare object() is a sentinel made on the spot: no program value is (or equals) it
         if identity and not isinstance(a, sym) and not isinstance(b, sym):
             return a is b                       # two host containers: identity is object identity
         if isinstance(a, (tuple, list)) and isinstance(b, (tuple, list)) and isinstance(a, tuple) != isinstance(b, tuple):
